@@ -420,7 +420,14 @@ def check_listing(rep, repo, f, sec, sort, line_items, pa_c):
                 rep.fail(rule, f.where, 'the student listing has one line per student (unassigned students included)', got='lines are produced for a filtered list: %s' % show(filt[0])[:120],
                          want='num_students lines', construct='student listing over a filtered list')
             elif bad is not None:
-                rep.inconclusive(rule, f.where, 'the student listing is inside the aggregate algebra', got=bad)
+                # necessary condition decided by partial evaluation: with the EMPTY matching every student still gets a line
+                emp = canon(without_pairs(arr, pa_c))
+                if emp in (('list', ()), ('fstr', ()), C('')) or (emp[0] == 'accum' and emp[1] == ('list', ()) and not emp[2]):
+                    rep.fail(rule, f.where, 'the student listing has one line per student (unassigned students included)',
+                             got='every line is produced while walking the matched pairs: with the empty matching the listing is empty, and students after the last matched one get no line',
+                             want='num_students lines', construct='student listing driven by the matched pairs only')
+                else:
+                    rep.inconclusive(rule, f.where, 'the student listing is inside the aggregate algebra', got=bad + ' | with the empty matching: ' + show(emp)[:300])
             else:
                 rep.fail(rule, f.where, 'the student listing has one line per student: the line of the student\'s pair placed at the student\'s own index, "no assignment" elsewhere',
                          got=show(arr)[:300], want='lines[pair.student_index] = s_<id>: p_<pid> (l_<lid>) ; s_<i+1> no assignment otherwise', construct='student listing shape')
@@ -487,6 +494,31 @@ def check_listing(rep, repo, f, sec, sort, line_items, pa_c):
             return
         rep.fail(rule, f.where, '%s line %s: label = index + 1, assignees = pairs scattered by their own %s, occupancy / capacity%s of the same %s' % (name, case, key, ' / target' if sort == 'L' else '', name),
                  got=show(line)[:400], want=show(want)[:400], construct='%s line %s' % (name, case))
+
+
+def without_pairs(t, pa):
+    """the term with the list of matched pairs taken to be empty: accumulations, comprehensions, sums and repetitions that
+    range over it contribute nothing"""
+    pa_binders = [b for b, g in pa[1]] if pa[0] == 'comp' else []
+    def over_pa(chain):
+        if any(b[3] == pa or equiv(b[3], pa) for b, g in chain):
+            return True
+        bs = [b for b, g in chain]
+        return bool(pa_binders) and all(b in bs for b in pa_binders)      # the list's own comprehension, fused into the chain
+    def f(x):
+        if x[0] == 'accum':
+            ents = tuple(e for e in x[2] if not over_pa(e[3]))
+            if len(ents) != len(x[2]):
+                return (x[0], x[1], ents) + tuple(x[3:])
+        if x[0] == 'comp' and over_pa(x[1]):
+            return ('list', ())
+        if x[0] == 'sum' and over_pa(x[1]):
+            return C(0)
+        if x[0] == 'srep' and over_pa(x[1]):
+            return C('')
+        return None
+    from ..canon import rewrite
+    return rewrite(t, f)
 
 
 def is_own_group(c, key, j):
